@@ -286,11 +286,14 @@ def monStep' (m : MSt) (bl : Block) : MSt × List String :=
       let c10 := if e'.headD "" == "dir" && g.headD "" == "dir" && unf e' != unf g &&
                     e'.filter (·.startsWith "finished=") == g.filter (·.startsWith "finished=")
         then ["prop=C10 reason=temporary-files-left-behind-differ-after-the-connection-ended"] else []
-      (m', c :: thr ++ c04 ++ c17 ++ c15 ++ c10)
+      -- C12: the frame loop must survive everything (a panic inside handleConn ends the connection abnormally)
+      let c12 := if got.any (fun l => l == ["conn", "panic"]) then ["prop=C12 reason=frame-processing-panicked"] else []
+      (m', c :: thr ++ c04 ++ c17 ++ c15 ++ c10 ++ c12)
   | ["n"] =>
     let exp := ((runConn m.st.f m.st.bytes m.st.reqOffsets m.st.wins).lines).map fields
     if exp == bl.outs then ({ m with st := st' }, [])
-    else ({ m with st := st' }, [classify (exp.headD []) []])
+    else ({ m with st := st' }, [classify (exp.headD []) []] ++
+            (if bl.outs.any (fun l => l == ["conn", "panic"]) then ["prop=C12 reason=frame-processing-panicked"] else []))
   | _ => ({ m with st := st' }, [])
 
 def monStep (m : MSt) (bl : Block) : MSt × List String :=
